@@ -34,12 +34,16 @@ def record(seq, circular=True, id_="rec"):
     return SeqRecord(Seq(seq), id=id_, name=id_, annotations={"topology": "linear"})
 
 
+KEEP = []          # wrappers are kept alive for the duration of one event (caches keyed on live objects must not mix them up)
+
+
 def query(cls, rec):
     """All public typing queries of one class on one record, never raising."""
     from moclo import errors
     res = {"valid": False, "exc": "", "up": [], "down": [], "tgt": [], "ph": [], "qexc": [], "qinv": True}
     try:
         ent = cls(rec)
+        KEEP.append(ent)
         v = guarded(ent.is_valid)
         if v is True or v is False:
             res["valid"] = v
@@ -79,6 +83,7 @@ def transform(seq, twin):
 def exec_typing(r):
     """recipe {cls, seq, twin?, gen?} -> [Typing event]"""
     loader.load()
+    del KEEP[:]
     cls = classes.build(r["cls"])
     seq = r["seq"]
     ev = {"ev": "Typing", "cls": classes.describe(cls), "seq": dna.enc(seq), "res": query(cls, record(seq)),
